@@ -82,3 +82,25 @@ int strict_hex(const std::string &s)
 }
 
 }
+
+// writes into a fixed-size local array at a variable offset
+#include <cstring>
+namespace verif_probe {
+
+size_t fixed_unbounded(const char *src, size_t n, size_t at)
+{
+    char buf[64];
+    memcpy(buf + at, src, n);              // nothing bounds at + n
+    return buf[0];
+}
+
+size_t fixed_bounded(const char *src, size_t n, size_t at)
+{
+    char buf[64];
+    if (at + n > sizeof(buf))
+        return 0;
+    memcpy(buf + at, src, n);
+    return buf[0];
+}
+
+}
